@@ -94,10 +94,11 @@ def settings_from_config(config):
 class Harness(object):
     """One plugin instance plus the objects it talks to."""
 
-    def __init__(self, config=None, debug=False):
+    def __init__(self, config=None, debug=False, values=None, g90e=None):
         config = config or {}
         self.config = config
-        self.values = settings_from_config(config)
+        # (values: start from these settings as they are - a plugin that has never seen any others)
+        self.values = settings_from_config(config) if values is None else copy.deepcopy(values)
         self.plugin = ExcludeRegionPlugin()
         self.plugin._settings = StubSettings(self.values)            # pylint: disable=protected-access
         self.pm = PluginManager()
@@ -105,7 +106,7 @@ class Harness(object):
         self.plugin._logger = env.make_logger(debug or bool(config.get("debug")))   # pylint: disable=protected-access
         self.plugin._identifier = "excluderegion"                      # pylint: disable=protected-access
         self.plugin._plugin_version = "verif"                          # pylint: disable=protected-access
-        self.g90e = bool(config.get("g90e"))
+        self.g90e = bool(config.get("g90e")) if g90e is None else bool(g90e)
         self.comm = Comm()
         self._sync_globals()
         self.plugin.initialize()
